@@ -339,11 +339,12 @@ def fexpr(v):
 
 
 class SV:
-    """Dynamically typed symbolic value (z3 Val)."""
-    __slots__ = ('e',)
+    """Dynamically typed symbolic value (z3 Val).  hint: what a heap reference in it points to."""
+    __slots__ = ('e', 'hint')
 
-    def __init__(self, e):
+    def __init__(self, e, hint=None):
         self.e = e
+        self.hint = hint
 
     def __repr__(self):
         return f'SV({self.e})'
@@ -388,6 +389,7 @@ class HDict:
             maps = {k: fresh(f'{name}_{k}', z3.ArraySort(s, VAL)) for k, s in HDict.SPACES.items()}
         self.maps = dict(maps)
         self.refs = {}        # python-side table: z3 ref id (int) -> heap object, for vref values
+        self.valtype = None   # what reference values point to: 'Tape' | 'list' | 'opaque' | None
 
     def __repr__(self):
         return f'HDict#{self.oid}({self.name})'
